@@ -2,9 +2,9 @@
 
   1. proofs: coq/Props/C12.v over coq/Model/BpSecChain.v (the receive chain from the BPSec steps to the
      application steps; verdict of every security block / target is an INPUT): never delivered for any
-     number and order of blocks, marked deleted with a reason in 12..16 when no exception escapes a
-     verification call, pass-through with / without acceptance, and the refutations that stand for the
-     unchanged code (block with undecodable BTSD never verified; text reason / neither delivered nor deleted),
+     number and order of blocks and marked deleted with a reason in 12..16 (failure code or escaping
+     exception alike), pass-through with / without acceptance, and the refutation that stands for the
+     current code (a block with undecodable BTSD is never verified: known finding),
   2. correspondence: generated bundles (0-3 BIB/BCB built through the real Agent.send_bundle with a policy)
      x malformations x key stores x accept_after_verify on/off are received by the real Agent.recv_bundle;
      the verdicts the COSE context answered (verify_bib / verify_bcb wrapped from outside) are fed to the
@@ -31,15 +31,13 @@ import bpdrive  # noqa: E402
 import bpsecdrive as sd  # noqa: E402
 
 SIG_INVIS = 'C12 / security block with undecodable BTSD is ignored and the bundle delivered'
-SIG_TEXT = ('C12 / exception escaping verify_bib or verify_bcb (target block absent, malformed ASB fields) / deleted with a '
-            'text reason instead of a security reason code, no status report, ValueError out of recv_bundle')
-SIG_DROP = ('C12 / exception escaping verify_bib or verify_bcb together with a numeric failure of another block / max() of mixed '
-            'reasons raises after deliver was removed: bundle neither delivered nor marked deleted, no status report')
-# Genuine defects of the unchanged code, shown to the coordinator with their witnesses (harness/corpus/C12_*.json) and
-# awaiting a decision (fix: commit or known_findings.json).  While a signature is listed here and not in
-# known_findings.json the failure is printed as PENDING-FINDING and does not fail the run; once it is listed in
-# known_findings.json it goes through chk.fail() and prints KNOWN-FINDING.
-PENDING_FINDINGS = [SIG_INVIS, SIG_TEXT, SIG_DROP]
+# fixed by d956b1c; the same names are used if the defect comes back (status "fixed" suppresses nothing)
+SIG_TEXT = 'C12 / exception during verification gives a text reason: bundle deleted without a security reason code and no report'
+SIG_DROP = 'C12 / numeric failure plus exception: max() raises, bundle neither delivered nor marked deleted'
+# Defects shown to the coordinator and awaiting a decision would be listed here (printed as PENDING-FINDING, not failing
+# the run, while absent from known_findings.json).  None at present: SIG_INVIS is a known finding (goes through chk.fail
+# and prints KNOWN-FINDING), SIG_TEXT / SIG_DROP are fixed and their witnesses are regression cases.
+PENDING_FINDINGS = []
 
 CORPUS_GLOB = os.path.join(VERIF, 'harness', 'corpus', 'C12_*.json')
 
@@ -1001,9 +999,8 @@ def main():
     chk.coverage['pending_findings_reproduced'] = sorted(pending)
     chk.coverage['refuted_or_partial_theorems'] = [
         dict(theorem='C12_invisible_refuted', finding=SIG_INVIS),
-        dict(theorem='C12_reason_refuted', finding=[SIG_TEXT, SIG_DROP]),
-        dict(theorem='C12_fail_closed_partial', guard='no exception escapes a verify_bib / verify_bcb call'),
-        dict(theorem='C12_live_iteration_refuted', finding='fixed: iteration over the live BIB/BCB list (original tree)'),
+        dict(theorem='C12_fail_closed_partial', guard='the block that does not verify is visible to the chain (its BTSD dissected)'),
+        dict(theorem='C12_live_iteration_refuted', finding='fixed 4b06bd6: iteration over the live BIB/BCB list (original tree)'),
     ]
     chk.finish(
         rule='a case = security operations (0-3 BIB/BCB, MAC0 HMAC-256/384 and Encrypt0 AES-GCM-128/256, one or two targets each, '
